@@ -152,3 +152,25 @@ func TestC09RefusedRemoveAll(t *testing.T) {
 		Rule: "an underlying agent holding a plain key, a YSSHCA certificate, another certificate and a token key (with or without a hardware certificate registered on it) refuses one remove-all request (failure reply, undecodable reply, empty reply); then list, signers, a second remove-all that is not refused, list - executed in no-upstream mode and with the mode off (6 pairs). Same model and oracle as TestC09Faults: a remove-all that reports success has removed everything, hidden certificates included; the operations after the refusal are judged as usual",
 		Exec: exec}, cases)
 }
+
+// TestC09ConstructFaults: the underlying agent answers the constructor's own listing badly. Either no agent
+// is handed out, or the one that is hides the YSSHCA certificates like any other no-upstream agent.
+func TestC09ConstructFaults(t *testing.T) {
+	var cases []vh.ShimCase
+	for _, kind := range []string{"fail", "malformed", "empty", "close", "truncate", "oversize"} {
+		c := vh.ShimCase{Certs: []vh.CertDef{
+			{Key: "p256b", KeyIDClass: "ysshca1", Validity: "forever", Serial: 1000},
+			{Key: "ed25519c", KeyIDClass: "text", Validity: "current", Serial: 1001}},
+			Initial:       []vh.Op{{Kind: "oobadd", Key: "p384a", Cert: -1, Comment: "plain"}, {Kind: "oobaddcert", Cert: 0, Comment: "ysshca"}, {Kind: "oobaddcert", Cert: 1, Comment: "other"}},
+			ConstructPlan: []vh.FaultRule{{Index: 0, Code: -1, Remaining: 1, Kind: kind}},
+			Ops:           []vh.Op{{Kind: "list", Cert: -1}, {Kind: "signers", Cert: -1}, {Kind: "sign", Cert: 0, Data: []byte("x")}, {Kind: "sign", Cert: 1, Data: []byte("y")}, {Kind: "list", Cert: -1}}}
+		cases = append(cases, c)
+	}
+	vh.Enumerate(t, vh.Spec[vh.ShimCase]{Property: "C09", Name: "TestC09ConstructFaults", Exhaustive: true,
+		Rule: "an underlying agent holding a plain key, a YSSHCA certificate and another certificate answers the first request it receives with a failure, an undecodable or empty reply, an oversize or cut-short reply, or by closing the connection; in no-upstream mode that request is the constructor's listing, with the mode off it is the first operation (6 pairs); then list, signers, sign naming the YSSHCA certificate, sign naming the other one, list. Oracle: the shim reference model - construction over a failing agent yields no agent; an agent that is handed out hides every YSSHCA certificate in no-upstream mode. Non-trivial: every pair (the fault was reached)",
+		Exec: func(c vh.ShimCase) (vh.Outcome, error) {
+			o, err := exec(c)
+			o.NonTrivial = true
+			return o, err
+		}}, cases)
+}
